@@ -2,7 +2,7 @@
    Opcodes are documented in harness/ops.py (kept in sync by hand; an unknown opcode or a
    malformed argument yields sx_bad, which the harness treats as a harness error). *)
 From HT Require Import Model.Str Model.Sx Model.Tree Model.Escape Model.Render Model.Codec
-     Model.TagTable Gen.Tables.
+     Model.TagTable Gen.Tables Spec.Layout Spec.StripMeta.
 
 Definition unit_of_sx (x : sx) : option unit := Some tt.
 Definition sx_unit (u : unit) : sx := L [].
@@ -27,6 +27,26 @@ Definition run (x : sx) : sx :=
     match map_opt unode_of_sx l, nat_of_sx i, str_of_sx eol, bool_of_sx aw, bool_of_sx esc with
     | Some l', Some i', Some e', Some aw', Some esc' => sx_res sx_str (list_html i' e' aw' esc' l')
     | _, _, _, _, _ => sx_bad
+    end
+  (* 4: C06 specification: layout of a tag from its `lines`; also valid_nesting *)
+  | L [A 4; n; i; eol] =>
+    match unode_of_sx n, nat_of_sx i, str_of_sx eol with
+    | Some n', Some i', Some e' =>
+      L [sx_bool (valid_nesting n'); sx_str (spec_tag_layout i' e' n')]
+    | _, _, _ => sx_bad
+    end
+  (* 5: C05 specification: flat form and inline_only *)
+  | L [A 5; n; esc] =>
+    match unode_of_sx n, bool_of_sx esc with
+    | Some n', Some esc' => L [sx_bool (inline_only n'); sx_str (flat esc' n')]
+    | _, _ => sx_bad
+    end
+  (* 6: C06 specification for a top-level list (add_ws = True) *)
+  | L [A 6; L l; i; eol] =>
+    match map_opt unode_of_sx l, nat_of_sx i, str_of_sx eol with
+    | Some l', Some i', Some e' =>
+      L [sx_bool (forallb valid_nesting l'); sx_str (spec_list_layout i' e' l')]
+    | _, _, _ => sx_bad
     end
   (* 10: the regenerated wrapper tables and name sets *)
   | L [A 10] =>
